@@ -51,8 +51,95 @@ def _run_cli(cmd, text, timeout_s):
         os.unlink(path)
 
 
-def solve_one(ob: Obligation, timeout_ms: int, portfolio=True, seed=0):
-    t0 = time.time()
+def _conjuncts(e, out):
+    if z3.is_and(e):
+        for c in e.children():
+            _conjuncts(c, out)
+    else:
+        out.append(e)
+    return out
+
+
+def _contains_quantifier(e, seen):
+    if e.get_id() in seen:
+        return seen[e.get_id()]
+    r = z3.is_quantifier(e) or any(_contains_quantifier(c, seen) for c in e.children())
+    seen[e.get_id()] = r
+    return r
+
+
+def _ground_slice(ob: Obligation):
+    """the quantifier-free conjuncts of the hypotheses (dropping hypotheses is sound for a proof); None if nothing is dropped"""
+    seen, keep, dropped = {}, [], 0
+    for h in ob.hyps:
+        for c in _conjuncts(h, []):
+            if _contains_quantifier(c, seen):
+                dropped += 1
+            else:
+                keep.append(c)
+    return keep if dropped else None
+
+
+def _is_array_definition(c):
+    """ForAll k. a[k] == t  (how list surgery / concatenation results are defined)"""
+    if not (z3.is_quantifier(c) and c.is_forall()):
+        return False
+    b = c.body()
+    return z3.is_eq(b) and z3.is_select(b.arg(0))
+
+
+def _lemma_slice(ob: Obligation):
+    """ground conjuncts + array definitions + lemma instances (implications): the invariant-like universally
+    quantified hypotheses are dropped"""
+    seen, keep, dropped = {}, [], 0
+    for h in ob.hyps:
+        for c in _conjuncts(h, []):
+            if not _contains_quantifier(c, seen):
+                keep.append(c)
+            elif _is_array_definition(c) or z3.is_implies(c):
+                keep.append(c)
+            else:
+                dropped += 1
+    return keep if dropped else None
+
+
+def _try_slice(hyps, goal, timeout_ms):
+    s0 = z3.Solver()
+    s0.set('timeout', timeout_ms)
+    for h in hyps:
+        s0.add(h)
+    s0.add(z3.Not(goal))
+    try:
+        return s0.check() == z3.unsat
+    except z3.Z3Exception:
+        return False
+
+
+_SK = [0]
+
+
+def _intros(goal, extra, out, depth=0):
+    """goal-directed introduction: A -> B becomes hypothesis A and goal B, a universal goal is instantiated with fresh
+    constants, a conjunction gives several goals; out collects (extra hypotheses, quantifier-free-at-top goal)"""
+    if depth > 12:
+        out.append((extra, goal))
+    elif z3.is_implies(goal):
+        _intros(goal.arg(1), extra + [goal.arg(0)], out, depth + 1)
+    elif z3.is_quantifier(goal) and goal.is_forall():
+        fresh = []
+        for i in range(goal.num_vars()):
+            _SK[0] += 1
+            fresh.append(z3.Const(f'sk!{goal.var_name(i)}!{_SK[0]}', goal.var_sort(i)))
+        _intros(z3.substitute_vars(goal.body(), *reversed(fresh)), extra, out, depth + 1)
+    elif z3.is_and(goal):
+        for c in goal.children():
+            _intros(c, extra, out, depth + 1)
+    else:
+        out.append((extra, goal))
+    return out
+
+
+def _plain(ob, timeout_ms, seed):
     s = z3.Solver()
     s.set('timeout', timeout_ms)
     s.set('random_seed', seed)
@@ -62,25 +149,66 @@ def solve_one(ob: Obligation, timeout_ms: int, portfolio=True, seed=0):
     try:
         r = s.check()
     except z3.Z3Exception as e:
-        return 'unknown', 'z3-5.1.0', time.time() - t0, None, f'z3 exception: {e}'
+        return 'unknown', None, f'z3 exception: {e}'
     if r == z3.unsat:
-        return 'proved', 'z3-' + z3.get_version_string(), time.time() - t0, None, ''
+        return 'proved', None, ''
     if r == z3.sat:
         try:
             model = _model_to_dict(s.model())
         except Exception:
             model = {}
-        return 'refuted', 'z3-' + z3.get_version_string(), time.time() - t0, model, ''
-    reason = s.reason_unknown()
+        return 'refuted', model, ''
+    return 'unknown', None, s.reason_unknown()
+
+
+def _sliced(ob, timeout_ms):
+    """only `unsat` is used from this attempt (dropping hypotheses and proving an introduced goal are sound): the lemma
+    slice of the hypotheses against every goal obtained by introduction"""
+    try:
+        goals = _intros(ob.goal, [], [])
+        if not goals or len(goals) > 6 or any(_contains_quantifier(g, {}) for _, g in goals):
+            return False
+        ls = _lemma_slice(ob)
+        for extra, g in goals:
+            if ls is None and not extra:
+                return False        # nothing dropped, nothing introduced: same query as the plain attempt
+            if not _try_slice((ls if ls is not None else list(ob.hyps)) + extra, g, min(2000, timeout_ms)):
+                return False
+        return True
+    except Exception:       # noqa: BLE001  (an optimisation only)
+        return False
+
+
+def solve_one(ob: Obligation, timeout_ms: int, portfolio=True, seed=0):
+    """plain z3 with a short budget -> lemma slice -> plain z3 with the full budget -> other back ends on the SMT-LIB dump
+    (a fresh z3 5.1 process, cvc5, z3 4.8).  Slow queries are the unstable ones: diversity instead of one long attempt."""
+    t0 = time.time()
+    zv = 'z3-' + z3.get_version_string()
+    short = min(timeout_ms, 4000)
+    st, model, reason = _plain(ob, short, seed)
+    if st != 'unknown':
+        return st, zv, time.time() - t0, model, reason
+    if _sliced(ob, timeout_ms):
+        return 'proved', zv + ' (lemma slice)', time.time() - t0, None, ''
+    if timeout_ms > short:
+        st, model, reason = _plain(ob, timeout_ms, seed + 1)
+        if st != 'unknown':
+            return st, zv, time.time() - t0, model, reason
     if portfolio:
         text = None
         try:
             text = _to_smt2(ob)
         except Exception as e:
             reason += f'; smt2 dump failed: {e}'
+        if text is not None and os.environ.get('VF_DUMP_UNKNOWN'):
+            import hashlib
+            os.makedirs(os.environ['VF_DUMP_UNKNOWN'], exist_ok=True)
+            with open(os.path.join(os.environ['VF_DUMP_UNKNOWN'], hashlib.sha1(ob.name.encode()).hexdigest()[:8] + '.smt2'), 'w') as f:
+                f.write(f'; {ob.name} path={ob.path}\n' + text)
         if text is not None:
             tsec = max(2, timeout_ms // 1000)
-            for name, cmd in (('cvc5-1.0.3', ['/usr/bin/cvc5', '--tlimit=%d' % (tsec * 1000)]),
+            for name, cmd in (('z3-5.1.0 (cli)', ['/opt/veriftools/pyvenv/bin/z3', '-T:%d' % tsec]),
+                              ('cvc5-1.0.3', ['/usr/bin/cvc5', '--tlimit=%d' % (tsec * 1000)]),
                               ('z3-4.8.12', ['/usr/bin/z3', '-T:%d' % tsec])):
                 if not os.path.exists(cmd[0]):
                     continue
@@ -89,7 +217,7 @@ def solve_one(ob: Obligation, timeout_ms: int, portfolio=True, seed=0):
                     return 'proved', name, time.time() - t0, None, ''
                 if ans == 'sat' and not _has_quantifier(ob):
                     return 'refuted', name, time.time() - t0, {}, 'model not extracted (CLI back end)'
-    return 'unknown', 'z3-' + z3.get_version_string(), time.time() - t0, None, reason
+    return 'unknown', zv, time.time() - t0, None, reason
 
 
 def _has_quantifier(ob):
